@@ -202,8 +202,15 @@ func Main(tier, replay string) {
 				}
 			}
 			if cr.Run.BuildErr != "" {
+				if cr.Interaction {
+					if cr.Group[0] == c.ID { // report the group once
+						run.Report(core.Violation{Oracle: "generated-routes-compile", Features: map[string]string{"flags": flName, "interaction": "several-scenarios-together", "error": classify(cr.Run.BuildErr)},
+							What: fmt.Sprintf("a project made of %d scenarios (%v...) yields routes files that do not compile although each half of it compiles: %s", len(cr.Group), cr.Group[:min(3, len(cr.Group))], firstLines(cr.Run.BuildErr, 3)), Case: c})
+					}
+					continue
+				}
 				if !cr.Solo {
-					continue // unreachable: failing packs are bisected down to single scenarios
+					continue
 				}
 				engines := map[string]string{}
 				for _, m := range errLoc.FindAllStringSubmatch(cr.Run.BuildErr, -1) {
